@@ -791,6 +791,10 @@ func r10_1(c *Ctx, lf *lexFacts, la *lexAnchors, capOK bool) {
 				c.bad(k, in.Pos(), "slice of %s is not shown to be in range", x.X.Name())
 			case *ssa.MapUpdate:
 				k := key("map write")
+				if _, isMake := x.Map.(*ssa.MakeMap); isMake {
+					c.ok(k, in.Pos(), "entry of a map literal (freshly made map)")
+					return
+				}
 				fld := sliceSourceField(x.Map)
 				okm := false
 				if fld != nil {
